@@ -908,6 +908,17 @@ def fam_errors(g, prefix, n_random):
             add([["def", "x", ["retry", b, src]], ["sub", ["ref", "x"], NOREACT], ["sub", ["ref", "x"], NOREACT], ["sub", ["ref", "x"], NOREACT]])
             add([["def", "x", ["retry_when", ["lt", "6"], ["take", b, src]]], ["sub", ["ref", "x"], NOREACT], ["sub", ["ref", "x"], NOREACT]])
             add([["def", "x", ["retry", b, src]], ["sub", ["on_error_resume_next", ["rs_ref", "x"], ["ref", "x"]], NOREACT]])
+    # two subscriptions of ONE recovery observable alive at the same time (a subscriber arriving from inside a callback
+    # of the first, two subscribers of a hot source): the budget belongs to a subscription, not to the observable
+    for b in ("2", "3", "4"):
+        for src in (["cold", "0", n_(1), e_(5)], ["cold", "0", n_(1), n_(2), e_(5)]):
+            for at in ("0", "1"):
+                add([["def", "x", ["retry", b, src]], ["sub", ["ref", "x"], ["react", [at, ["sub", ["ref", "x"]]]]]])
+                add([["def", "x", ["retry_when", ["lt", "6"], ["take", b, src]]], ["sub", ["ref", "x"], ["react", [at, ["sub", ["ref", "x"]]]]]])
+        add([["subject", "a", "plain"], ["def", "x", ["retry", b, ["ref", "a"]]], ["sub", ["ref", "x"], NOREACT], ["hnext", "a", "1"],
+             ["sub", ["ref", "x"], NOREACT], ["herror", "a", "6"], ["hnext", "a", "2"]])
+        add([["subject", "a", "plain"], ["def", "x", ["on_error_resume_next", "rs_same", ["retry", b, ["ref", "a"]]]], ["sub", ["ref", "x"], NOREACT],
+             ["sub", ["ref", "x"], NOREACT], ["hnext", "a", "1"], ["herror", "a", "6"]])
     for rs in ("rs_empty", "rs_same", "rs_payload", ["rs_just", "8"], ["rs_err", "9"], ["rs_iter", "7", "8"]):
         for pos in range(len(items) + 1):
             g.tag = 0
